@@ -29,17 +29,16 @@ Definition fp_with_meta (q : FdParams) (m : option SegMeta) : FdParams :=
 Definition fp_with_offset (q : FdParams) (v : Z) : FdParams :=
   {| fp_data := fp_data q; fp_offset := v; fp_meta := fp_meta q |}.
 
-(* the two setters as the code performs them: the parameter object (and the header's metadata
-   flag) is written first, then the data-field length is recalculated; when the header's
-   length setter refuses the new length (ValueError, > 65535) the assignments made so far stay *)
+(* the two setters: the parameter object (and the header's metadata flag) is written, the data-field
+   length recalculated; when the header's length setter refuses the new length (ValueError, > 65535)
+   the assignments are taken back before the error is passed on: the PDU is what it was before the
+   call.  (fd_set_data / fd_set_meta of Model/FileData.v are the successful case.) *)
+Definition fd_try (p : FileDataPdu) (r : res FileDataPdu) : FileDataPdu * res (list Z) :=
+  match r with Ok p' => (p', Ok []) | Err e => (p, Err e) end.
 Definition fd_set_data_st (p : FileDataPdu) (d : bytes) : FileDataPdu * res (list Z) :=
-  let p1 := fd_with_params p (fp_with_data (fd_params p) d) in
-  match fd_calc_len p1 with Ok p2 => (p2, Ok []) | Err e => (p1, Err e) end.
+  fd_try p (fd_set_data p d).
 Definition fd_set_meta_st (p : FileDataPdu) (m : option SegMeta) : FileDataPdu * res (list Z) :=
-  let p1 := fd_with_params p (fp_with_meta (fd_params p) m) in
-  let p2 := fd_with_hdr p1 (hdr_set_meta (fd_hdr p1)
-              (match m with None => SEGMETA_NOT_PRESENT | Some _ => SEGMETA_PRESENT end)) in
-  match fd_calc_len p2 with Ok p3 => (p3, Ok []) | Err e => (p2, Err e) end.
+  fd_try p (fd_set_meta p m).
 
 (* one operation: the PDU afterwards, and what the call returned or raised *)
 Definition fd_step (p : FileDataPdu) (o : fd_hop) : FileDataPdu * res (list Z) :=
